@@ -27,7 +27,8 @@
 EXTENDS Integers, FiniteSets
 
 CONSTANTS Ids, Counted, RootIds, NoId, Ext,
-          IsPkg(_), Rc(_), Owner(_), Esc(_), HashOK(_), Cnt(_, _), InDeg(_), Out(_)
+          IsPkg(_), Rc(_), Owner(_), Esc(_), HashOK(_), Cnt(_, _), InDeg(_), Out(_),
+          NewTime(_), PkgTime(_)    \* NewTime of the object's id; the PERSISTED id counter (Realm.Time) of its realm
 
 \* ---- the five clauses, per object (so that a failing object can be named) ----
 RefCountOK(o) == IF IsPkg(o) THEN Rc(o) = 1 /\ InDeg(o) = 0
@@ -42,6 +43,8 @@ SharedEscapedOK(o) == IsPkg(o) \/ Rc(o) < 2 \/ Esc(o)
 
 NoDanglingOK(o) == Out(o) \subseteq (Ids \cup Ext)
 HashOKAt(o) == HashOK(o)
+\* ids are never reused: the persisted counter of the realm is not behind any persisted id
+IdCounterOK(o) == NewTime(o) <= PkgTime(o)
 
 \* reachability from the packages
 RECURSIVE Closure(_)
@@ -58,6 +61,7 @@ RefCountExact == \A o \in Counted : RefCountOK(o)
 OwnerIffSingle == \A o \in Counted : OwnerRecordedOK(o) /\ OwnerHoldsOK(o) /\ SharedEscapedOK(o)
 NoDangling == \A o \in Ids : NoDanglingOK(o)
 HashMatches == \A o \in Ids : HashOKAt(o)
+IdCounter == \A o \in Ids : IdCounterOK(o)
 ReachableUnlessCyclic == LET R == Reachable IN \A o \in Counted : ReachOKIn(o, R)
 
 \* names of the clauses an object fails (for reporting on dumped real graphs); R = Reachable,
@@ -69,5 +73,6 @@ Fails(o, R) ==
   (IF o \in Counted /\ ~SharedEscapedOK(o) THEN {"OwnerIffSingle:shared-not-escaped"} ELSE {}) \cup
   (IF ~NoDanglingOK(o) THEN {"NoDangling"} ELSE {}) \cup
   (IF ~HashOKAt(o) THEN {"HashMatches"} ELSE {}) \cup
+  (IF ~IdCounterOK(o) THEN {"IdCounterBehind"} ELSE {}) \cup
   (IF o \in Counted /\ ~ReachOKIn(o, R) THEN {"ReachableUnlessCyclic"} ELSE {})
 =============================================================================
